@@ -181,7 +181,10 @@ func BuildFanP(e *Env, spec FanSpec, id, curveId string, pwm0, mode0 int, px str
 		}
 		writeScript(filepath.Join(sub, "setpwm.sh"), fc("set")+fmt.Sprintf("echo \"$1\" >> %s\nprintf '%%s' \"$1\" > %s\n", wlog, pwmFile))
 		writeScript(filepath.Join(sub, "getpwm.sh"), fc("get")+fmt.Sprintf("cat %s\n", pwmFile))
-		writeScript(filepath.Join(sub, "getrpm.sh"), fc("rpm")+fmt.Sprintf("cat %s\n", rpmFile))
+		// RPM: the content of the rpm file, or - when a plant threshold file exists (Run harness) - what a fan that turns
+		// iff pwm > theta reports for the PWM value the device currently holds
+		writeScript(filepath.Join(sub, "getrpm.sh"), fc("rpm")+fmt.Sprintf("if [ -f %s ]; then p=$(cat %s); t=$(cat %s); if [ \"$p\" -gt \"$t\" ]; then echo $((500 + 10 * p)); else echo 0; fi; else cat %s; fi\n",
+			filepath.Join(sub, "theta"), pwmFile, filepath.Join(sub, "theta"), rpmFile))
 		e.RegisterFile(px+"pwm", pwmFile)
 		e.RegisterFile(px+"rpm", rpmFile)
 		e.RegisterFile(px+"wlog", wlog)
